@@ -325,7 +325,7 @@ func Harness_C16(n int) {
 	budget := symU64("budget")
 	// small budgets (every one forks the parse) or huge ones (never exhausted)
 	symAssume(budget >= 1)
-	symAssume(symOr(budget <= %d, budget >= 1<<31))
+	%s
 	memo := symBool("memoize")
 	var st Stats
 	o := runReal(in, MaxExpressions(budget), Memoize(memo), Statistics(&st, "no match"))
@@ -355,7 +355,9 @@ func Harness_C16(n int) {
 	}
 	symReach("end")
 }
-''' % (int(g.get("budget_max", 24)), "true" if not g.get("nonterminating") else "false"))
+''' % (("symAssume(budget <= %d) // non-terminating grammar: a huge budget is a run of 2^31 and more iterations, not a hang" % int(g.get("budget_max", 12))) if g.get("nonterminating")
+       else "symAssume(symOr(budget <= %d, budget >= 1<<31))" % int(g.get("budget_max", 24)),
+       "true" if not g.get("nonterminating") else "false"))
     if "C08" in props:
         s.append('''
 // C08: left-recursive rules parse as the left-associative iteration they denote.
@@ -412,6 +414,27 @@ func Harness_C18(n int) {
 }
 ''' % ((("", "", "") if g.get("_optimized") else (", Memoize(symBool(\"m1\"))", ", Memoize(symBool(\"m2\"))", ", Memoize(symBool(\"m1\"))"))))
     if "C18" in props:
+        s.append('''
+// C18 (aborted calls): the middle call is cut short by an expression budget at
+// an arbitrary point (a recovered panic in the middle of rules, labels and
+// recovery operators); whatever it leaves behind must not reach the next call.
+func Harness_C18abort(n int) {
+	inA := symInputNamed("a", n, true)
+	inB := symInputNamed("b", n, true)
+	budget := symU64("budget")
+	symAssume(budget >= 1 && budget <= 20)
+	symMonitor("ownership-lifo") // the pool hands back what was put last (no nondeterministic Get in this family)
+	alone := runReal(inB)
+	other := runReal(inA, MaxExpressions(budget))
+	again := runReal(inB)
+	symNote(outcomeNote(alone) + "/" + outcomeNote(other))
+	symAssert(!alone.panicked && !other.panicked && !again.panicked, "C18: Parse panicked")
+	symAssert(symEqual(alone.v, again.v), "C18: the value of a Parse depends on an earlier, aborted Parse in the same process")
+	symAssert(sameStrings(errStrings(alone.err), errStrings(again.err)), "C18: the errors of a Parse depend on an earlier, aborted Parse")
+	symAssert(symEqual(alone.tr, again.tr), "C18: the code blocks of a Parse saw different contexts after an earlier, aborted Parse")
+	symReach("end")
+}
+''')
         s.append('''
 // Native confirmation of an ownership-discipline violation (run under the
 // race detector, never by the engine): 8 goroutines x 200 Parse calls on the
